@@ -20,6 +20,12 @@ def gen_c11(rng, style="healthy"):
     for d in cfg.devs:
         d.transport = rng.choice(["pipe", "pipe", "tcp"])
         d.timeout = rng.choice([2.0, 3.0])
+    if rng.random() < 0.35:
+        # per-plug scripts only: a request for several plugs of one device queues one action per plug, so that actions which have
+        # not started yet exist when the requester vanishes
+        for d in cfg.devs:
+            d.kinds = [k for k in d.kinds if not k.endswith(("_ranged", "_all"))]
+            d.kinds += [k for k in ("on", "off", "cycle", "status") if k not in d.kinds]
     nodes = cfg.all_nodes()
     roles = ["A", "B"] + (["C"] if rng.random() < 0.6 else []) + (["D"] if rng.random() < 0.35 else [])
     sc = pmcheck.Scenario(cfg, [], dict(style="c11", ncli=len(roles), roles=roles))
@@ -36,6 +42,16 @@ def gen_c11(rng, style="healthy"):
     if "D" in idx:
         S.append(("raw", ["STALL c%d 1" % idx["D"]]))
         S.append(("send", idx["D"], say(idx["D"], "help", "help", []) + say(idx["D"], "nodes", "nodes", [])))
+    cand = [d for d in cfg.devs if any(k in d.kinds for k in ("status", "status_all")) and any(cfg.truth[d.name].values())]
+    if cand and rng.random() < 0.35:
+        # a query WITHOUT a node list by B, then one device falls silent, then the same query by A: what A is told about that
+        # device's nodes must come from A's own (timed-out) action - unknown - not from what B's request found earlier
+        d = rng.choice(cand)
+        S.append(("send", idx["B"], say(idx["B"], "status", "status", list(nodes)))); S.append(("wait", idx["B"]))
+        S.append(("devmode", d.name, "silent"))
+        S.append(("send", idx["A"], say(idx["A"], "status", "status", list(nodes)))); S.append(("wait", idx["A"]))
+        S.append(("devmode", d.name, "healthy")); S.append(("sleep", 2500000))
+        sc.tags["stale"] = dict(client=idx["A"], line=len(sc.lines[idx["A"]]) - 1, dev=d.name, nodes=[n for n in cfg.truth[d.name].values() if n])
     if rng.random() < 0.4:
         S.append(("send", idx["A"], say(idx["A"], "telemetry", "telemetry", []))); S.append(("wait", idx["A"]))
     if rng.random() < 0.3:
@@ -60,7 +76,9 @@ def gen_c11(rng, style="healthy"):
     S.append(("send", idx["B"], say(idx["B"], "status %s" % eb, "status", tb)))
     if "C" in idx:
         S.append(("send", idx["C"], say(idx["C"], "%s %s" % (wc, ec), wc, tc)))
-        S.append(("sleep", rng.choice([60, 200, 1000])))
+        # (virtual time only advances while the daemon is idle: `sleep 0` = one round later, i.e. the line has been parsed and the
+        # first actions started, the others are still queued; longer sleeps = after the devices have gone quiet)
+        S.append(("sleep", rng.choice([0, 0, 0, 60, 1000])))
         S.append(("raw", ["RST c%d" % idx["C"]]))
         sc.tags["dropped"] = idx["C"]
     S.append(("sleep", 9000000))
@@ -140,6 +158,17 @@ def mon_c11(sess, sc):
                     if m: listed.append(m.group(1).decode())
                 if sorted(listed) != sorted(tg):
                     bad.append(("attribution", "status-scope", "client %d: `%s` listed %s, asked for %s" % (k, line, sorted(listed), sorted(tg))))
+                st = sc.tags.get("stale")
+                if st and k == st["client"] and li - 1 == st["line"]:
+                    known = []
+                    for l in infos:
+                        m = re.match(rb"302 (?:on|off): +(.*)$", l)
+                        if m and m.group(1): known += pmgen.expand(m.group(1).decode())
+                        m = re.match(rb"303 ([^:]+): (?:on|off)$", l)
+                        if m: known.append(m.group(1).decode())
+                    leaked = sorted(set(known) & set(st["nodes"]))
+                    if leaked:
+                        bad.append(("result-scope", "stale-state", "client %d: `status` while device %s was silent reports %s as on/off - values of an earlier request (of another client), not of this request's own actions" % (k, st["dev"], leaked)))
         # the second line of A must have been refused, not executed, when A's command was queued
         if sc.tags["roles"][k] == "A" and chunks:
             codes = [c[0] for c in chunks]
